@@ -19,11 +19,15 @@ def specs(tier):
          gridlab.tokamak_spec("lsn", fpol="const", options={"finecontour_Nfine": 120, "finecontour_atol": 1.0e-3}, extract=ex),
          # the option that modifies Bpxy at the y-faces next to an X-point (it acts when Bp > 0: psi increasing outward)
          gridlab.tokamak_spec("ldn", fpol="linear", options={"cap_Bp_ylow_xpoint": True}, extract=ex)]
+    # a grid on which no two options that could be confused coincide (see gridlab.odd_spec)
+    S.append(gridlab.odd_spec("lsn", True, extract=ex))
     if tier == "thorough":
         S += [gridlab.tokamak_spec("ldn", fpol="linear", extract=ex), gridlab.tokamak_spec("udn", fpol="const", options={"orthogonal": False}, extract=ex),
               gridlab.tokamak_spec("usn", fpol="negconst", options={"y_boundary_guards": 2}, extract=ex),
               gridlab.tokamak_spec("lsn", fpol="linear", psi_sign=-1.0, extract=ex),
               gridlab.circular_spec(options={"poloidal_spacing_method": "linear", "finecontour_Nfine": 400, "q_coefficients": [1.5, 0.0, 2.0]}, extract=ex)]
+    if tier == "thorough":
+        S.append(gridlab.odd_spec("cdn", False, extract=ex))
     return S
 
 
